@@ -38,9 +38,9 @@ const (
 )
 
 type PathEl struct {
-	field  int  // field index, or -1 for an array index
-	idx    Term // array index
-	contT  types.Type // container type (struct or array) this element selects from
+	field int        // field index, or -1 for an array index
+	idx   Term       // array index
+	contT types.Type // container type (struct or array) this element selects from
 }
 
 type Loc struct {
@@ -90,18 +90,18 @@ type Obligation struct {
 	Kind    string   // ensures, requires, loop-init, loop-step, safety kinds, frame, lemma, vacuity
 	Tags    []string // property ids
 	Func    string
-	Src     string // clause source text
-	Script  string // full SMT-LIB query
+	Src     string   // clause source text
+	Script  string   // full SMT-LIB query
 	More    []string // further queries of the same obligation (one per return path); all must have the expected result
-	Expect  string // "unsat" for proof obligations, "sat" for vacuity/cover
+	Expect  string   // "unsat" for proof obligations, "sat" for vacuity/cover
 	Pos     string
 	Claimed bool // counts toward the property (false: safety sweep only)
 	// results
-	Result  string
-	Solver  string
-	Ms      int64
-	Model   string
-	Detail  string
+	Result string
+	Solver string
+	Ms     int64
+	Model  string
+	Detail string
 }
 
 // ---------------------------------------------------------------------------
@@ -116,43 +116,43 @@ func unsupported(f string, a ...interface{}) {
 }
 
 type Run struct {
-	eng      *Engine
-	top      *ssa.Function
-	contract *FuncContract
-	lines    []scriptLine
-	anc      map[string]map[string]bool // pc name -> pcs that can precede it (relevance of guarded assumptions)
-	ctr      int
-	obls     []*Obligation
-	heapVer  map[string]int
-	inlined  map[string]bool
-	externs  map[string]bool // assumed contracts used
-	natives  map[string]bool
-	noops    map[string]bool
-	depth    int
-	stack    []*ssa.Function
-	safetyN  map[string]int
-	declared map[string]bool
-	assumeNotes []string
-	inputs   []inputVar // named inputs for model projection
+	eng                         *Engine
+	top                         *ssa.Function
+	contract                    *FuncContract
+	lines                       []scriptLine
+	anc                         map[string]map[string]bool // pc name -> pcs that can precede it (relevance of guarded assumptions)
+	ctr                         int
+	obls                        []*Obligation
+	heapVer                     map[string]int
+	inlined                     map[string]bool
+	externs                     map[string]bool // assumed contracts used
+	natives                     map[string]bool
+	noops                       map[string]bool
+	depth                       int
+	stack                       []*ssa.Function
+	safetyN                     map[string]int
+	declared                    map[string]bool
+	assumeNotes                 []string
+	inputs                      []inputVar // named inputs for model projection
 	callN, qctr, noDef, probing int
 	havocN, noAssume, allocN    int
-	pureInsts  map[string]*pureInst
-	guards     map[string]*Term
-	topRets    []retRec
-	frameItemsC    []frameItem
-	frameItemsDone bool
-	entryEnv       *SpecEnv
-	entryState     *State
-	writes         map[string][]string // probe: heap key -> refs written (names)
-	sliceArr       map[string]string   // slice term name -> backing array ref name (for slices built from a known allocation)
-	closures       map[string]*Closure
-	funcProv       map[string]string // function-valued term -> "pkgpath.Type.Field" it was loaded from
-	cellOrigin     map[*ssa.Alloc]string // captured (heap) slice variables: allocation tag of the value last stored
-	probeCtr0      int
-	axiomsDone map[string]bool
-	axiomsUsed []string
-	tracker    *heapTracker
-	trackState *State
+	pureInsts                   map[string]*pureInst
+	guards                      map[string]*Term
+	topRets                     []retRec
+	frameItemsC                 []frameItem
+	frameItemsDone              bool
+	entryEnv                    *SpecEnv
+	entryState                  *State
+	writes                      map[string][]string // probe: heap key -> refs written (names)
+	sliceArr                    map[string]string   // slice term name -> backing array ref name (for slices built from a known allocation)
+	closures                    map[string]*Closure
+	funcProv                    map[string]string     // function-valued term -> "pkgpath.Type.Field" it was loaded from
+	cellOrigin                  map[*ssa.Alloc]string // captured (heap) slice variables: allocation tag of the value last stored
+	probeCtr0                   int
+	axiomsDone                  map[string]bool
+	axiomsUsed                  []string
+	tracker                     *heapTracker
+	trackState                  *State
 }
 
 type inputVar struct {
@@ -565,24 +565,24 @@ func (r *Run) updPath(base Term, path []PathEl, v Term) Term {
 // Frames
 
 type Frame struct {
-	run      *Run
-	fn       *ssa.Function
-	vals     map[ssa.Value]Val
-	entry    *State
-	edges    map[[2]int]*State // (from,to) -> state at the edge (pc includes the edge condition)
-	defers   []deferRec
-	rets     []retRec
-	contract *FuncContract
-	params   map[string]SV
-	loops    map[*ssa.BasicBlock]*loopInfo
-	loopOrd  map[*ssa.BasicBlock]int
-	loopPre  map[*ssa.BasicBlock]*State
-	top      bool
-	mapIters map[ssa.Value]*mapIter
-	curCall     *ssa.CallCommon
+	run          *Run
+	fn           *ssa.Function
+	vals         map[ssa.Value]Val
+	entry        *State
+	edges        map[[2]int]*State // (from,to) -> state at the edge (pc includes the edge condition)
+	defers       []deferRec
+	rets         []retRec
+	contract     *FuncContract
+	params       map[string]SV
+	loops        map[*ssa.BasicBlock]*loopInfo
+	loopOrd      map[*ssa.BasicBlock]int
+	loopPre      map[*ssa.BasicBlock]*State
+	top          bool
+	mapIters     map[ssa.Value]*mapIter
+	curCall      *ssa.CallCommon
 	curAppendArg ssa.Value
-	probeSink   func(*State)
-	probeHeader *ssa.BasicBlock
+	probeSink    func(*State)
+	probeHeader  *ssa.BasicBlock
 }
 
 type deferRec struct {
@@ -599,24 +599,24 @@ type retRec struct {
 }
 
 type loopInfo struct {
-	header    *ssa.BasicBlock
-	blocks    map[*ssa.BasicBlock]bool
-	ord       int
-	modLocals []*ssa.Alloc
-	modKeys   []string
-	freshOnly map[string]bool
-	ownedAcc  []*ssa.Alloc
-	accOrigin map[*ssa.Alloc]string
-	accOwn    []func(Term) Term
-	accGet    []func(*State) (Term, bool)
+	header     *ssa.BasicBlock
+	blocks     map[*ssa.BasicBlock]bool
+	ord        int
+	modLocals  []*ssa.Alloc
+	modKeys    []string
+	freshOnly  map[string]bool
+	ownedAcc   []*ssa.Alloc
+	accOrigin  map[*ssa.Alloc]string
+	accOwn     []func(Term) Term
+	accGet     []func(*State) (Term, bool)
 	accRel     []func(Term) Term
 	accRelGet  []func(*State) (Term, bool)
 	accRelName []string
 	autoFramed map[string]bool
 	writesSeen map[string][]string
 	probeCtr0  int
-	decHead   Term
-	nBack     int
+	decHead    Term
+	nBack      int
 }
 
 type mapIter struct {
